@@ -3,7 +3,7 @@ import copy
 import warnings
 
 from vmon import gen, objs, param, prog
-from vmon.snap import snapshot, state_key, timeline_diff
+from vmon.snap import diff, snapshot, state_key, timeline_diff
 
 LEVEL = "exploration"
 RULE = ("a concrete valid program is generated online; every numeric argument position is independently (p=1/2) replaced "
@@ -41,6 +41,26 @@ def concrete_program(ctx, rng, dev, reg, nmax=26, weights=None, styles=False, ma
     return ops, r
 
 
+def qubits_referenced(ops, ids) -> set:
+    """Qubit ids named explicitly by the calls of a program (targets, shifts, initial targets, masks)."""
+    out = set()
+    for o in ops:
+        for key in ("qubits", "targets", "initial_target"):
+            v = o.get(key)
+            if v is None:
+                continue
+            for x in (v if isinstance(v, list) else [v]):
+                if o["op"] in ("target_index", "phase_shift_index") and isinstance(x, int):
+                    out.add(ids[x])
+                elif x in ids:
+                    out.add(x)
+                elif isinstance(x, dict):  # an expression for an index: any qubit may be meant
+                    out.update(ids)
+        if o["op"] in ("phase_shift", "phase_shift_index") and not o.get("targets"):
+            pass  # no target: no atom is shifted
+    return out
+
+
 def run_direct(ctx, dev, reg, ops):
     r = prog.Runner(ctx, dev, reg, [])
     for op in ops:
@@ -61,7 +81,15 @@ def run_case(ctx, idx, rng, tier):
         return
     t = param.Templ(rng, p=0.5)
     qids = regB["ids"]
-    T = [t.op(o, qids) for o in ops]
+    # (in about a third of the cases a prefix of the calls stays literal: those calls are executed at once on the
+    #  template and *replayed* by build, the others are deferred)
+    k0 = rng.randint(1, len(ops)) if ops and rng.random() < 0.35 else 0
+    T = []
+    for i, o in enumerate(ops):
+        t.p = 0.0 if i < k0 else 0.5
+        T.append(t.op(o, qids))
+    if k0:
+        ctx.count("templates_with_literal_prefix")
     if mapp:
         T = [o for o in T if o["op"] != "config_slm_mask"]  # documented: not with a mappable register
         ops = [o for o in ops if o["op"] != "config_slm_mask"]
@@ -158,6 +186,52 @@ def run_case(ctx, idx, rng, tier):
         d = timeline_diff(results["v1"], results["v1again"], tol=0.0)
         if d:
             ctx.violation("rebuild-differs", f"build(v1) before and after build(v2) differ: {d[:3]}", "rebuild-differs", case=case)
+    # ---- partial mapping of a mappable register: only the first k qubits get a trap -------------------------
+    if mapping and "v1" in results:
+        n = len(regB["ids"])
+        used_q = qubits_referenced(ops, regB["ids"])
+        kmin = max([regB["ids"].index(q) + 1 for q in used_q] + [1])
+        if kmin < n and not any(o["op"] in ("config_detuning_map",) for o in ops):
+            k = rng.randint(kmin, n - 1)
+            part = {q: mapping[q] for q in regB["ids"][:k]}
+            regP = dict(regB, ids=regB["ids"][:k], trap_ids=regB["trap_ids"][:k])
+            snap0 = snapshot(seqA)
+            before = state_key(snap0)
+            try:
+                with warnings.catch_warnings():
+                    warnings.simplefilter("ignore")
+                    builtP, pexc = seqA.build(**copy.deepcopy(v1), qubits=part), None
+            except Exception as e:
+                builtP, pexc = None, e
+            ctx.count("partial_mapping_builds")
+            if state_key(snapshot(seqA)) != before:
+                ctx.violation("template-changed", f"build with a partial mapping ({k} of {n} qubits) changed the template: "
+                              f"{diff(snap0, snapshot(seqA))}", "template-changed:partial-mapping", case=case)
+            rP, dexc = run_direct(ctx, dev, regP, [param.concretize(o, v1) for o in T])
+            ctx.case = case
+            if dexc is None and pexc is not None:
+                ctx.violation("build-raises", f"build(v1, {k} of {n} qubits mapped) raised {type(pexc).__name__}: "
+                              f"{str(pexc)[:200]} although direct construction on that register succeeds",
+                              f"build-raises:partial:{type(pexc).__name__}", case=case)
+            elif dexc is None:
+                sP = snapshot(builtP)
+                inreg = {str(q) for q in builtP.register.qubit_ids}
+                # (phase trackers the built sequence still carries for declared-but-unmapped ids belong to no atom)
+                sP["bref"] = {b: {q: v for q, v in d_.items() if q in inreg} for b, d_ in sP["bref"].items()}
+                d = timeline_diff(snapshot(rP.seq), sP, tol=1e-9)
+                if d:
+                    ctx.violation("build-differs", f"build(v1, {k} of {n} qubits mapped) differs from direct construction: "
+                                  f"{d[:3]}", "build-differs:partial-mapping", case=case)
+            # ... and the full build afterwards is what it was before
+            try:
+                again = snapshot(build(copy.deepcopy(v1)))
+                d = timeline_diff(results["v1"], again, tol=0.0)
+                if d:
+                    ctx.violation("rebuild-differs", f"build(v1) before and after a partial-mapping build differ: {d[:3]}",
+                                  "rebuild-differs:partial-mapping", case=case)
+            except Exception as e:
+                ctx.violation("build-raises", f"full build after a partial-mapping build raised {type(e).__name__}: "
+                              f"{str(e)[:200]}", f"build-raises:after-partial:{type(e).__name__}", case=case)
     if len(used) >= 2 and t.composite >= 1 and builds >= 2:
         ctx.mark_nontrivial(("c08", idx))
     ctx.sample({k: (v if k != "template" else v[:12]) for k, v in case.items()})
